@@ -59,12 +59,12 @@ Ltac nf_goal NF NL NR :=
 
 Ltac invS S x y z := let a := fresh in let b := fresh in let c := fresh in injection S as a b c; subst x y z.
 
-Lemma lead_ninv : forall n r ns pc ok r' ns1 nx,
-  ninv n r ns -> flight ns = Some pc -> claimless_pc pc ok r = false ->
-  lstep n pc ok r ns = (r', ns1, nx) ->
+Lemma lead_ninv : forall fx n r ns pc ok r' ns1 nx,
+  ninv n r ns -> flight ns = Some pc -> fx = true \/ claimless_pc pc ok r = false ->
+  lstep fx n pc ok r ns = (r', ns1, nx) ->
   ninv n r' (fin ns1 nx) /\ reg_frame n r r'.
 Proof.
-  intros n r ns pc ok r' ns1 nx H F G S.
+  intros fx n r ns pc ok r' ns1 nx H F G S.
   pose proof H as H0. dinv H.
   assert (NR : forall i p d, ~ running ns i p d) by (apply hXf; congruence).
   assert (NLF : noflag ns -> forall q, p_live (pf ns q) = false).
@@ -124,8 +124,10 @@ Proof.
   - (* LReget *)
     pose proof (NLF hEF) as NL. simpl in G.
     destruct ok; simpl in S, G.
-    + destruct (r_get gk r) as [o|] eqn:RG; [|discriminate].
-      destruct (Nat.eqb_spec o n); invS S r' ns1 nx; (split; [|left; auto]); nf_goal hEF NL NR.
+    + destruct (r_get gk r) as [o|] eqn:RG.
+      * destruct (Nat.eqb_spec o n); invS S r' ns1 nx; (split; [|left; auto]); nf_goal hEF NL NR.
+      * destruct fx; [|destruct G; discriminate].
+        invS S r' ns1 nx. split; [|left; auto]. nf_goal hEF NL NR.
     + invS S r' ns1 nx. split; [|left; auto]. nf_goal hEF NL NR.
   - (* LActivate *)
     pose proof (NLF hEF) as NL.
